@@ -55,7 +55,6 @@ import (
 const (
 	stSpace     = "spaceId"
 	stDirEnv    = "VERIF_C11_ST_DIR"
-	stOpLimit   = 6 * time.Second
 	stNReplicas = 2
 )
 
@@ -428,6 +427,9 @@ func (r *stReplica) seed(w *stWorld, g *stGraph) {
 	stMust(err)
 	r.emitted = nil
 }
+
+// wall-clock guard of one handler call / honest follow-up (stretched on an overloaded machine, see loadFactor)
+var stOpLimit = scaled(6 * time.Second)
 
 // stGuard runs fn under recover and the wall-clock guard. cls: "" finished, "panic", "hang".
 func stGuard(fn func() error) (err error, cls, msg string) {
